@@ -6,9 +6,9 @@ from common import tlc, tlc_ok, tlc_must_fail, build_driver, run_driver, judge, 
 WHY = {"C03": {"accept", "errclass", "compile"}, "C04": {"tree", "paren", "results"}, "C12": {"coords", "errclass"}}
 
 TIERS = {
-    "quick":    dict(mc_lang="MC_Lang_quick.cfg", mc_sent="MC_Sent_quick.cfg", tokN=4, nearN=4, chars=[("full", 3), ("small", 4)],
+    "quick":    dict(mc_lang="MC_Lang_quick.cfg", mc_sent="MC_Sent_quick.cfg", tokN=4, nearN=4, juxtaN=3, chars=[("full", 3), ("small", 4)],
                      sentN=5, chains=3, rtext=4000, rtoks=400, maxlen=30),
-    "thorough": dict(mc_lang="MC_Lang_thorough.cfg", mc_sent="MC_Sent_thorough.cfg", tokN=4, nearN=5, chars=[("full", 4)],
+    "thorough": dict(mc_lang="MC_Lang_thorough.cfg", mc_sent="MC_Sent_thorough.cfg", tokN=4, nearN=5, juxtaN=3, chars=[("full", 4)],
                      sentN=6, chains=4, rtext=60000, rtoks=6000, maxlen=60),
 }
 
@@ -58,6 +58,15 @@ def run(prop, tier, seed, work, ev):
             c = work.path("chars.%s.cases" % alpha)
             gen(work, "chars", c, n, alpha=alpha)
             rejects += run_and_judge("all character strings <= %d (%s alphabet)" % (n, alpha), c, work, ev, drv, prop)
+        c = work.path("juxta.cases")
+        gen(work, "juxta", c, t["juxtaN"])
+        rejects += run_and_judge("juxtapositions S1 S2 and (S1) S2 of sentences <= %d tokens" % t["juxtaN"], c, work, ev, drv, prop)
+        c = work.path("uni.cases")
+        gen(work, "uni", c, 0)
+        rejects += run_and_judge("Unicode class probes (non-ASCII digits, letters, blanks, controls) after every token-starting character", c, work, ev, drv, prop)
+        c = work.path("numerals.cases")
+        gen(work, "numerals", c, 0)
+        rejects += run_and_judge("number-token spellings: leading zeros, long digit runs, multi-digit negatives, 32-bit limits", c, work, ev, drv, prop)
         c = work.path("rtext.cases")
         e = dict(os.environ, GEN_MAXLEN=str(t["maxlen"]))
         subprocess.check_call([drv, "gen", "lang-text", str(seed), str(t["rtext"]), c], env=e)
